@@ -1178,6 +1178,40 @@ def enum_small2(slice_no):
                                    "top acts 2", sub(t1), sub(t2), "top frameend"]
                             yield "\n".join(out) + "\n"
 
+def enum_small3(slice_no):
+    """A third exhaustive family (thorough tier): entity world reactor 0 (its system A has a run-0 body of at most two
+    actions, among them adding / removing entities of the reactor, mutations, entity events, removal and re-insertion of
+    the component, despawns) next to a plain reactor B on a removal / despawn / insertion / mutation trigger with at most one
+    action; two top-level actions, then the end of the frame. About 290 000 scenarios in ENUM_SLICES slices."""
+    ALPH = ["mutate e0 0 2", "entevent e0 0 %d", "remove e0 0", "insert e0 0 3", "despawn e0", "ewradd 0 e1 7",
+            "ewrremove 0 emut:e0:0 eev:e0:0", "ewrremove 0 emut:e0:0", "mutate e1 0 4", "run s0"]
+    bodiesA = [[]] + [[a] for a in ALPH] + [[a, b] for a in ALPH for b in ALPH]
+    bodiesB = [[]] + [[a] for a in ALPH]
+    trigB = ["erem:e0:0", "dsp:e0", "ins:0", "emut:e1:0", "rem:0"]
+    modeB = ["p", "c"]
+    tops = ["mutate e0 0 5", "entevent e0 0 %d", "remove e0 0", "despawn e0", "ewradd 0 e1 8", "ewrremove 0 emut:e0:0 eev:e0:0"]
+    k = 0
+    for A in bodiesA:
+        for B in bodiesB:
+            for tb in trigB:
+                for mb in modeB:
+                    for t1 in tops:
+                        k += 1
+                        if k % ENUM_SLICES != slice_no % ENUM_SLICES: continue
+                        for t2 in (tops[(tops.index(t1) + 1) % len(tops)], tops[(tops.index(t1) + 3) % len(tops)]):
+                            pid = [0]
+                            def sub(a):
+                                if "%d" in a:
+                                    pid[0] += 1
+                                    return a % pid[0]
+                                return a
+                            out = ["def 0 2", "run %d" % len(A)] + [sub(a) for a in A] + ["run 0",
+                                   "def 0 2", "run %d" % len(B)] + [sub(b) for b in B] + ["run 0",
+                                   "ewr 0",
+                                   "top acts 6", "spawn", "spawn", "insert e0 0 1", "insert e1 0 1", "ewradd 0 e0 5", "on %s 1 %s" % (mb, tb),
+                                   "top acts 2", sub(t1), sub(t2), "top frameend"]
+                            yield "\n".join(out) + "\n"
+
 def generate(prof, seed):
     text = PROFILES[prof](random.Random(seed))
     return with_validity(text, random.Random(seed ^ 0x5eed))
